@@ -22,7 +22,7 @@ func init() {
 		Assumptions: []string{"node-side filter semantics as in the execution-apis / go-ethereum filters: address list, positional topic alternatives, filter longer than the log's topics never matches", "allocation bound: 8 MiB + 1 KiB per log byte"},
 		Real:        []string{"shutterservice.EventTriggerDefinition (MarshalBytes, UnmarshalBytes, Validate, ToFilterQuery, Match)", "go-ethereum rlp"},
 		Stub:        []string{"the contract emitting logs and the node's log filter (ref.FilterPasses)"},
-		QuickRuns:   20000, ThoroughRuns: 2000000, QuickMinimize: 300, ThoroughMinimize: 2000,
+		QuickRuns:   60000, ThoroughRuns: 2000000, QuickMinimize: 300, ThoroughMinimize: 2000,
 	})
 }
 
